@@ -343,6 +343,9 @@ func C13(e *Env) {
 	defer trw.p.Stop()
 	totalFaultRuns, totalOps := 0, 0
 	for _, sc := range scen {
+		if c13Stuck.Load() {
+			break // a handler of this worker never ends: the verdict is in, every further wait is wasted
+		}
 		t := tro
 		if sc.Write {
 			t = trw
@@ -362,6 +365,10 @@ func C13(e *Env) {
 				// states its content (C02/C03/C05/C06); this scenario cannot serve as a reference
 				run.Count("scenarios_skipped_fault_free_run_not_as_modelled", 1)
 				run.Sample(map[string]any{"scenario_skipped": sc.Name, "fault_free_failure": res.Fail.Error()})
+			}
+			// whatever the conversation was, the connection has ended: its handles and goroutine are due
+			if rep, sconn, err := t.quiesce(); err == nil && (len(rep.Open) > 0 || sconn != 0) {
+				run.Violate("leak", sc.Name+": fault-free", fmt.Sprintf("[%s, no fault] after the connection ended %d handles are still open (%v), %d serveConn goroutines (its conversation: %s)", sc.Name, len(rep.Open), trimPaths(rep.Open, root), sconn, res.Fail.Error()), map[string]any{"scenario": sc.Name, "open": rep.Open})
 			}
 			continue
 		}
@@ -466,6 +473,9 @@ func C13(e *Env) {
 	// sizes, layouts - shows up in the healthy replay that follows on the same process)
 	coldRuns := 0
 	for _, sc := range scen {
+		if c13Stuck.Load() {
+			break
+		}
 		if sc.Write || !(strings.HasPrefix(sc.Name, "encrypted") || strings.HasPrefix(sc.Name, "3k3y") || strings.HasPrefix(sc.Name, "ps3") || strings.HasPrefix(sc.Name, "generated") || sc.Name == "mixed-handles") {
 			continue
 		}
